@@ -71,19 +71,20 @@ type tfun struct {
 	params []string
 	ptypes []gty
 	// results
-	resNames []string
-	resTypes []gty
-	mutates  bool
-	text     string
-	skipped  []string
-	inputs   map[string]string
-	chans    map[string]string
-	calls    map[string]string
-	capture  bool
-	view     string   // suffix of the structure name: a separate record of the receiver's fields for this group of functions
-	opaque   bool     // argument-less interface-method calls become parameters
-	onames   []string // those parameters, in order of first use
-	otypes   []gty
+	resNames  []string
+	resTypes  []gty
+	mutates   bool
+	text      string
+	skipped   []string
+	sliceBody bool // the slice is (part of) a loop body: `continue` ends it
+	inputs    map[string]string
+	chans     map[string]string
+	calls     map[string]string
+	capture   bool
+	view      string   // suffix of the structure name: a separate record of the receiver's fields for this group of functions
+	opaque    bool     // argument-less interface-method calls become parameters
+	onames    []string // those parameters, in order of first use
+	otypes    []gty
 }
 
 type translator struct {
@@ -818,6 +819,12 @@ func (e *env) assigned(stmts []ast.Stmt, out map[string]bool) {
 						out[e.rname] = true
 					}
 				}
+			case *ast.GoStmt:
+				if nm, ok := e.f.calls["time.Sleep"]; ok {
+					out[nm+"Called"] = true
+					out[nm+"Arg"] = true
+				}
+				return false
 			case *ast.BasicLit:
 				if v.Kind == token.STRING && strings.HasPrefix(v.Value, "\"chanmove:") {
 					out[e.rname] = true
@@ -870,6 +877,9 @@ func hasReturn(stmts []ast.Stmt) bool {
 		ast.Inspect(s, func(n ast.Node) bool {
 			if _, ok := n.(*ast.ReturnStmt); ok {
 				found = true
+			}
+			if b, ok := n.(*ast.BranchStmt); ok && b.Tok == token.CONTINUE {
+				found = true // (only reachable in loop-body slices; refused elsewhere)
 			}
 			if _, ok := n.(*ast.FuncLit); ok {
 				return false
@@ -1101,6 +1111,10 @@ func (e *env) block(stmts []ast.Stmt, fall string, ind string) string {
 				sb.WriteString(fmt.Sprintf("%slet %s := (%s.take %s.length) ++ (%s.drop %s.length)\n", ind, d, src, d, d, src))
 				continue
 			}
+			if nm, ok := e.f.calls[txt]; ok && len(call.Args) >= 2 {
+				sb.WriteString(fmt.Sprintf("%slet %sCalled := true\n", ind, nm))
+				continue
+			}
 			if nm, ok := e.f.calls[txt]; ok && len(call.Args) <= 1 {
 				x := "0"
 				if len(call.Args) == 1 {
@@ -1177,6 +1191,31 @@ func (e *env) block(stmts []ast.Stmt, fall string, ind string) string {
 			if e.ifReturns(switchToIf(v)) {
 				return sb.String()
 			}
+		case *ast.BranchStmt:
+			// in a slice of a loop body: `continue` ends the iteration - the slice yields its outputs as they are
+			if v.Tok == token.CONTINUE && e.f.sliceBody {
+				sb.WriteString(ind + fall + "\n")
+				return sb.String()
+			}
+			e.fail("%s statement", v.Tok)
+		case *ast.GoStmt:
+			// `go func(..) { time.Sleep(d); ... }(..)`: a goroutine that first sleeps `d` (evaluated now: the closure does
+			// not change it) - captured as the call time.Sleep(d)
+			fl, ok := v.Call.Fun.(*ast.FuncLit)
+			nm, has := e.f.calls["time.Sleep"]
+			if !ok || !has || len(fl.Body.List) == 0 {
+				e.fail("go statement")
+			}
+			es, ok := fl.Body.List[0].(*ast.ExprStmt)
+			if !ok {
+				e.fail("go statement: the goroutine does not start with time.Sleep")
+			}
+			c0, ok := es.X.(*ast.CallExpr)
+			if !ok || e.t.p.str(c0.Fun) != "time.Sleep" || len(c0.Args) != 1 {
+				e.fail("go statement: the goroutine does not start with time.Sleep")
+			}
+			x, _ := e.expr(c0.Args[0])
+			sb.WriteString(fmt.Sprintf("%slet %sCalled := true\n%slet %sArg := %s\n", ind, nm, ind, nm, x))
 		case *ast.RangeStmt:
 			// `for _, op := range batch { total += int(op.Cost()) }` over a list input: a fold; inside the body
 			// `<op>.Cost()` is the element
@@ -1510,6 +1549,7 @@ type tspec struct {
 	sliceAt                string            // like sliceFrom, but the first statement (anywhere in the body, also inside closures and select arms) whose text starts with this
 	inputs                 map[string]string // source text of an expression -> "name:type" (int|bool): an input of the translated code
 	chanCap                map[string]string // field that is a `chan struct{}` -> the field holding its capacity: the channel is the number of tokens in it
+	loopBody               bool              // the slice lies in a loop body (`continue` allowed)
 	sliceHas               string            // ... and contains this
 	captureCalls           map[string]string // text of a called function -> name: the statement `f(x)` sets <name>Called := true, <name>Arg := x
 	captureEmit            bool              // an Emit / emit call assigns its event (and message constant) to the string variable `ev`
@@ -1526,7 +1566,7 @@ func (t *translator) translate(sp tspec) (res *tfun, why string) {
 	if st == nil {
 		return nil, "receiver struct not found"
 	}
-	f := &tfun{lean: sp.lean, decl: fd, recv: sp.recv, st: st, opaque: sp.opaque, view: sp.view, inputs: sp.inputs, capture: sp.captureEmit, calls: sp.captureCalls, chans: sp.chanCap}
+	f := &tfun{lean: sp.lean, decl: fd, recv: sp.recv, st: st, opaque: sp.opaque, view: sp.view, inputs: sp.inputs, capture: sp.captureEmit, calls: sp.captureCalls, chans: sp.chanCap, sliceBody: sp.loopBody}
 	e := &env{t: t, f: f, vars: map[string]gty{}, lnames: map[string]string{}}
 	e.rname = fd.Recv.List[0].Names[0].Name
 	defer func() {
@@ -1884,6 +1924,10 @@ func transAll(v1, v2 *pkg) string {
 		{file: "azure-shared-resource.go", recv: "AzureSharedResource", name: "GiveMe", lean: "v1_sr_GiveMe"},
 		{file: "azure-shared-resource.go", recv: "AzureSharedResource", name: "clearPartitionId", lean: "v1_sr_clearPartitionId"},
 		{file: "azure-shared-resource.go", recv: "AzureSharedResource", name: "getAllocatedAndRandomUnallocatedPartition", lean: "v1_sr_pick", opaque: true},
+		{file: "azure-shared-resource.go", recv: "AzureSharedResource", name: "Start", lean: "v1_sr_grant", view: "_grant", sliceAt: "requested := time.Now()", sliceN: 9, loopBody: true,
+			sliceOut:     []string{"sleepCalled", "sleepArg", "markCalled"},
+			inputs:       map[string]string{"time.Now()": "now:int", "time.Since(requested)": "elapsed:int", "r.leaseManager.leasePartition(ctx, id, index)": "granted:int"},
+			captureCalls: map[string]string{"time.Sleep": "sleep", "r.setPartitionId": "mark", "recalc": "calc"}},
 		{file: "azure-shared-resource.go", recv: "AzureSharedResource", name: "Provision", lean: "v1_sr_requirements", until: "r.partlock.Lock", view: "_req"},
 		{file: "azure-shared-resource.go", recv: "AzureSharedResource", name: "Provision", lean: "v1_sr_partitionCount", sliceFrom: "count", sliceN: 2, sliceOut: []string{"count", "err"}},
 		{file: "provisioned-resource.go", recv: "ProvisionedResource", name: "MaxCapacity", lean: "v1_pr_MaxCapacity"},
@@ -1928,6 +1972,10 @@ func transAll(v1, v2 *pkg) string {
 		{file: "shared-resource.go", recv: "sharedResource", name: "clearPartitionId", lean: "v2_sr_clearPartitionId"},
 		{file: "shared-resource.go", recv: "sharedResource", name: "getAllocatedAndRandomUnallocatedPartition", lean: "v2_sr_pick", opaque: true},
 		{file: "shared-resource.go", recv: "sharedResource", name: "Start", lean: "v2_sr_requirements", until: "r.provision = make", view: "_req"},
+		{file: "shared-resource.go", recv: "sharedResource", name: "loop", lean: "v2_sr_grant", view: "_grant", sliceAt: "requested := time.Now()", sliceN: 9, loopBody: true,
+			sliceOut:     []string{"sleepCalled", "sleepArg", "markCalled"},
+			inputs:       map[string]string{"time.Now()": "now:int", "time.Since(requested)": "elapsed:int", "r.leaseManager.LeasePartition(ctx, id, index)": "granted:int"},
+			captureCalls: map[string]string{"time.Sleep": "sleep", "r.setPartitionId": "mark", "r.calc": "calc"}},
 		{file: "shared-resource.go", recv: "sharedResource", name: "scheduleProvision", lean: "v2_sr_scheduleProvision", view: "_prov", chanCap: map[string]string{"provision": "1"}},
 		{file: "shared-resource.go", recv: "sharedResource", name: "SetSharedCapacity", lean: "v2_sr_SetSharedCapacity", view: "_prov", chanCap: map[string]string{"provision": "1"}},
 		{file: "shared-resource.go", recv: "sharedResource", name: "provisionBlobs", lean: "v2_sr_reprovision", sliceFrom: "sharedCapacity", sliceN: 8, sliceOut: []string{"count"}},
